@@ -137,6 +137,10 @@ def oracle_fault(d, known_hang_libs=()):
             else:
                 p.append(txt)
         else:
+            # a call that was executed before the actor died legitimately returns the value that execution produced
+            executed = [l for l in d.get("log", []) if l.startswith("%s:%s:" % (c["kind"], c["who"]))]
+            if c["phase"] == "inflight" and c["kind"] == "add" and executed and executed[0].split(":")[-1] == str(c.get("value")):
+                continue
             p.append("C20: %s %s call of client %s returned normally (value %s) although the actor was dead: silently discarded / fabricated" % (
                 c["phase"], c["kind"], c["who"], c.get("value")))
     return p, known
